@@ -801,6 +801,14 @@ def rule_partloops(ctx, rep, rid):
         bound = [a for t, s_, a in pat.branch_edges_on(g, lambda a: len(a) == 3 and a[1] == ("phi", ph.id))]
         okb = any(a[0] in ("ult", "uge") and ir.expr_contains(a[2], lambda z: z == ("arg", 3)) and ir.expr_contains(a[2], lambda z: z == ("arg", 2)) for a in bound)
         rep.check(okb, rid, name + ".bound", "loop bound is size + start + len", "loop bound is %s" % [ir.atom_str(a) for a in bound][:2], [ba[0].where()])
+        # direction of the test: the loop goes on while index < bound
+        for ph2, inits2, steps2, stays2 in pat.counted_loops(g):
+            if ph2.id != ph.id:
+                continue
+            for a, t in stays2:
+                if a[1] == ("phi", ph.id):
+                    rep.check(a[0] in ("ult", "ne"), rid, name + ".bound-direction", "the partition loop continues while index < size + start + len",
+                              "the partition loop continues while index %s bound: %s" % (a[0], "the bucket just past the partition (another thread's, or past the level) is processed too" if a[0] == "ule" else "no bucket of the partition is processed - the level is published unpopulated / freed while still linked"), [t.where()])
 
 
 def rule_createbucket(ctx, rep, rid):
@@ -820,6 +828,24 @@ def rule_createbucket(ctx, rep, rid):
         rep.must_pass(rid, "create.level0≺head", f, [f.entry()], b0, lambda i: i in a0, include_start=True, what="level 0 is allocated before bucket 0 is initialised")
     head_next = [s for s in pat.stores(f, NEXT) if ir.const_of(f, s.args[0]) == (1 | B.BUCKET) or ir.expr(f, s.args[0], 3) == ("c", 1 | B.BUCKET) or ir.const_of(f, s.args[0]) == B.BUCKET]
     rep.check(bool(head_next), rid, "create.head", "bucket 0's next is the flagged end marker", "bucket 0 is not initialised as an empty list head (next = END | BUCKET)", [f.name])
+    # the two loops: orders 1 .. bucket_order inclusive, and within an order i = 0 .. len - 1
+    for ph2, inits2, steps2, stays2 in pat.counted_loops(f):
+        nl2 = pat.natural_loop(f, ph2)
+        is_outer = any(c.blk.id in nl2 for c in al if c not in a0) and inits2 == [1]
+        is_inner = inits2 == [0] and any(c.blk.id in nl2 for c in ba) and not is_outer
+        for a, t in stays2:
+            if a[1] != ("phi", ph2.id):
+                continue
+            if is_outer:
+                incl = a[0] in ("ule", "sle") or (a[0] in ("ult", "slt") and a[2][0] == "bin" and a[2][1] == "add" and a[2][3] == ("c", 1))
+                excl = a[0] in ("ult", "slt") and not incl
+                if incl:
+                    rep.ok(rid, "create.orders-inclusive", "levels 1 .. initial order are all created")
+                elif excl or a[0] in ("uge", "ugt", "sge", "sgt"):
+                    rep.bad(rid, "create.orders-inclusive", "the level loop of cds_lfht_create_bucket runs while %s: the table starts with fewer bucket levels than its published size addresses" % ir.atom_str(a), [t.where()])
+            elif is_inner:
+                rep.check(a[0] in ("ult", "ne"), rid, "create.level-fully-linked", "every bucket node of a level is initialised and linked (i < len)",
+                          "the per-level loop runs while %s: %s" % (ir.atom_str(a), "bucket nodes of the level stay unlinked (zero-filled memory reachable through the table)" if a[0] in ("uge", "ugt") else "one node past the level is written"), [t.where()])
     lv = [c for c in al if c not in a0]
     if not lv:
         raise Broken("create_bucket: per-level allocation not found")
